@@ -276,6 +276,16 @@ def _probe_kf08():
     return "lab_bins" in r.dims
 
 
+def _probe_kf11():
+    import numpy as np
+    import xarray as xr
+    from flox.xarray import xarray_reduce
+    lab = np.array(["2001-01-01", "2002-03-04", "NaT", "2001-01-01"], dtype="datetime64[ns]")
+    v = xr.DataArray(np.arange(8.0).reshape(4, 2), dims=("x", "y"), coords={"lab": ("x", lab)})
+    r = xarray_reduce(v, "lab", func="min", dim="y")
+    return r.sizes.get("x") == 4
+
+
 def _probe_kf09():
     import numpy as np
     import flox
@@ -293,7 +303,7 @@ def _probe_kf10():
 
 
 PROBES = {"KF10": _probe_kf10, "KF09": _probe_kf09, "KF01": _probe_kf01, "KF02": _probe_kf02, "KF03": _probe_kf03, "KF04": _probe_kf04, "KF05": _probe_kf05,
-          "KF06": _probe_kf06, "KF07": _probe_kf07, "KF08": _probe_kf08}
+          "KF06": _probe_kf06, "KF07": _probe_kf07, "KF08": _probe_kf08, "KF11": _probe_kf11}
 
 
 def probe_listed(run):
